@@ -152,6 +152,9 @@ func (se *SessionExecutor) handleStmtExecute(reqCtx *util.RequestContext, data [
 		return nil, mysql.NewDefaultError(mysql.ErrUnknownStmtHandler,
 			strconv.FormatUint(uint64(id), 10), "stmt_execute")
 	}
+	// whatever happens to this execution, the next one starts without bound values:
+	// a packet refused halfway through binding must not leave its first values behind
+	defer s.ResetParams()
 
 	flag := data[pos] & mysql.CursorTypeReadOnly
 	pos++
@@ -206,7 +209,6 @@ func (se *SessionExecutor) handleStmtExecute(reqCtx *util.RequestContext, data [
 	} else {
 		executeSQL = s.sql
 	}
-	defer s.ResetParams()
 	// execute sql using ComQuery
 	return se.handleQuery(reqCtx, executeSQL)
 }
